@@ -722,3 +722,37 @@ def r9_13(rep):
         rep.check(bad is None, "verdict-per-item:%s" % set_of(c), "evaluated for the item itself" if bad is None else
                   "the match against `%s` is wrapped in a closure given to `%s`: whether and for which item it runs is decided there "
                   "(a cache keyed by name alone merges a type and a function of the same name)" % (set_of(c), bad), b.loc(c))
+
+
+@RULES.rule("R9.14", "every declaration of a function becomes an item: parsing does not remember what it has seen", floor=5)
+def r9_14(rep):
+    """`--allowlist-file` / `--blocklist-file` select by the location of each item.  A function declared in `internal.h` and again in
+    `public.h` has two items; the one in `public.h` is what `--allowlist-file '.*public\\.h'` finds (code generation drops the duplicate
+    symbol later).  Giving an item to the first declaration only ("the others are filtered out anyway") loses the function for the
+    allowlisted file (seeded change).  Every early `return Err(..)` of `Function::parse` must depend on the cursor and the options
+    only: no guard may go through a `&mut` method of the context or read one of its `parsed_*` / seen sets."""
+    import qq
+    prog = rep.prog
+    b = rep.need(prog.impl_fn("parse::ClangSubItemParser", "ir::function::Function", "parse"), "<Function as ClangSubItemParser>::parse")
+    ctxp = next((p_ for p_ in b.params if "BindgenContext" in (prog.types[p_["t"]] if p_.get("t") is not None else "")), None)
+    rep.need(ctxp, "the context parameter of Function::parse")
+    n = 0
+    for r in b.walk():
+        if r["k"] != "Ret" or "Err" not in b.canon(r.get("e") or {}, 2):
+            continue
+        n += 1
+        bad = []
+        for a, pol, g in qq.guard_atoms(b, r):
+            for x in b.walk(g) if isinstance(g, dict) else []:
+                if x["k"] == "MCall" and strip(x["recv"]).get("k") == "Local" and strip(x["recv"]).get("id") == ctxp.get("id"):
+                    cal = x.get("resolved") or x.get("callee") or ""
+                    cb = prog.bodies.get(cal)
+                    mut_self = cb is not None and cb.params and "&mut" in (prog.types[cb.params[0]["t"]] if cb.params[0].get("t") is not None else "")
+                    if mut_self or "parsed_" in cal or "seen" in cal:
+                        bad.append(cal.split("::")[-1])
+                if x["k"] == "Field" and x.get("adt") == CTX and ("parsed" in x["f"] or "seen" in x["f"]):
+                    bad.append("self." + x["f"])
+        rep.check(not bad, "exit-depends-on-cursor-only@L%d" % n, "guards read the cursor and the options" if not bad else
+                  "this early exit depends on `%s`, i.e. on which declarations were parsed before: a later declaration of the same function "
+                  "(the one inside the allowlisted file) gets no item" % ", ".join(bad), b.loc(r))
+    rep.need(n >= 5, "early `return Err(..)` exits of Function::parse")
